@@ -16,3 +16,29 @@ Fixpoint cnf3_code (cls : list (list (list lit))) (p : nat) : list instr :=
   | [] => []
   | ds :: r => dnf_code ds p (p + total_lits ds) ++ cnf3_code r (p + total_lits ds)
   end.
+
+(* ------------------------------------------------------------------------------------------------
+   The class of the depth-3 theorems as a predicate on expressions (Proofs/C03Roundtrip3All.v): alternating and/or nestings
+   over literals.  `alt_depth o d e`: e is a literal, or (d > 0 and) e is an `or` (o = true) resp. `and` (o = false) of at
+   least two operands each of which is `alt_depth (negb o) (d - 1)`.  (A group directly under a group of the same kind -
+   `a and (b and c)`, which Python keeps as a nested BoolOp - is not in the class.) *)
+Definition litb (e : bexp) : bool :=
+  match e with
+  | Atom _ => true
+  | Not (Atom _) => true
+  | Cmp _ (Atom _) (Atom _) => true
+  | Not (Cmp _ (Atom _) (Atom _)) => true
+  | IsNone _ (Atom _) => true
+  | _ => false
+  end.
+
+Fixpoint alt_depth (o : bool) (d : nat) (e : bexp) : bool :=
+  litb e ||
+  match d with
+  | O => false
+  | S d' => match e with
+            | And l => negb o && Nat.leb 2 (length l) && forallb (alt_depth (negb o) d') l
+            | Or l => o && Nat.leb 2 (length l) && forallb (alt_depth (negb o) d') l
+            | _ => false
+            end
+  end.
